@@ -87,6 +87,20 @@ func HarnessC06CancellationStopsEvaluation() {
 	k := verifrt.Choose(maxK)
 	ctx, cancel := context.WithCancel(context.Background())
 	defer cancel()
+	// for the early instants also: a context with a (far) deadline cancelled
+	// before it, directly or through its parent
+	if k < 6 {
+		switch verifrt.Choose(3) {
+		case 1:
+			dctx, dcancel := context.WithTimeout(context.Background(), 8*time.Second)
+			defer dcancel()
+			ctx, cancel = dctx, dcancel
+		case 2:
+			dctx, dcancel := context.WithTimeout(ctx, 8*time.Second)
+			defer dcancel()
+			ctx = dctx // cancelled through its parent
+		}
+	}
 	verifrt.SchedBounds(1, 2)
 	verifrt.AtYield(k+1, cancel)
 	ticks := 0
